@@ -574,6 +574,13 @@ func (fr *Frame) evalCall(e *CExpr, ctx *evalCtx) *Val {
 			fr.vc.heapSort["CV$signalled"] = arrSort(sBool)
 		}
 		return boolVal(sel(fr.vc.heapGet(fr.st, "CV$signalled"), fr.scalar(x)))
+	case "before": // before(x, y): object x was allocated before object y (references are allocation-ordered)
+		if len(args) != 2 {
+			efail("before(x, y) expects two references")
+		}
+		x := fr.eval1(args[0], ctx)
+		y := fr.eval1(args[1], ctx)
+		return boolVal(app("<", fr.scalar(x), fr.scalar(y)))
 	case "local": // current value of a (reassigned) parameter or local variable at this program point
 		if len(args) != 1 || args[0].Kind != "ident" {
 			efail("local(name) expects a variable name")
